@@ -96,3 +96,17 @@ def unit_admissible():
         if o['status'] == 'refuted': o['replay'] = NATIVE
         o.pop('cex_raw', None); O.append(o)
     return res
+
+
+def unit_scaling():
+    """C08: zone states under a change of units (D: L/T, rho_0: M/L^3; reaction progress dimensionless)"""
+    res = {'obligations': [], 'functions': functions(), 'engine_errors': []}; O = res['obligations']
+    try: F, lt, xr, hy, obj = states()
+    except Unsupported as u_:
+        O.append(core.Obl('C08/sdrz/extraction', 'open', 'extraction', 0.0, detail=str(u_)[:300])); return res
+    lM, lL, lT = sp.symbols('lambda_M lambda_L lambda_T', positive=True)
+    sub = {D: D * lL / lT, rho_0: rho_0 * lM / lL ** 3}
+    for nm, f in (('pvec', lM / (lL * lT ** 2)), ('rhovec', lM / lL ** 3), ('uvec', lL / lT), ('csvec', lL / lT)):
+        o = core.prove_zero('C08/sdrz/%s' % nm, F[nm].subs(sub, simultaneous=True) - f * F[nm], hy + [lam <= 1], goal_text='%s(scaled inputs) == %s * %s(inputs)' % (nm, f, nm), extra_syms={lM, lL, lT})
+        o.pop('cex_raw', None); O.append(o)
+    return res
